@@ -149,3 +149,43 @@ func VerifC14AfterClose() {
 	verifrt.Assert("c14.after-close.second-close-is-an-error", r.Close() != nil)
 	verifrt.Reach("c14-after-close")
 }
+
+// VerifC14ConcurrentAllocate: two goroutines allocate metrics that share a name and a tag the
+// reporter has not seen before (the interner and the tag cache are filled by the first use), at
+// the same time; both calls return, both handles work, Close returns.  Every schedule with at
+// most 1 preemption at the reporter's and its caches' synchronisation; race check.
+func VerifC14ConcurrentAllocate() {
+	r, addr := vLight(Binary, 4, 1440, false)
+	var hs [2]tally.CachedCount
+	var wg sync.WaitGroup
+	verifrt.ExploreOnly("/m3", "/internal/cache")
+	verifrt.Explore(1)
+	wg.Add(2)
+	for i := 0; i < 2; i++ {
+		i := i
+		go func() {
+			defer wg.Done()
+			hs[i] = r.AllocateCounter("fresh", map[string]string{"newkey": "newvalue"})
+		}()
+	}
+	wg.Wait()
+	verifrt.StopExplore()
+	// a third allocation after the race, then use of all handles
+	third := r.AllocateCounter("fresh", map[string]string{"newkey": "newvalue"})
+	hs[0].ReportCount(1)
+	hs[1].ReportCount(2)
+	third.ReportCount(4)
+	verifrt.Assert("c14.concurrent-allocate.close-returns-nil", r.Close() == nil)
+	var sum int64
+	for _, bt := range vDecode(addr, Binary) {
+		for _, m := range bt.batch.Metrics {
+			if m.Name == "fresh" {
+				sum += m.Value.Count
+				verifrt.Assert("c14.concurrent-allocate.tags-intact", len(m.Tags) == 1 && m.Tags[0].Name == "newkey" && m.Tags[0].Value == "newvalue")
+			}
+		}
+	}
+	verifrt.Assert("c14.concurrent-allocate.all-handles-work", sum == 7)
+	verifrt.Assert("c14.concurrent-allocate.no-goroutine-left", verifrt.LiveThreads() == 0)
+	verifrt.Reach("c14-concurrent-allocate")
+}
